@@ -164,10 +164,12 @@ def r3_own_address(ctx, f, rep):
                           'sender update = Member(header.src, header.src_incarnation, Alive), applied only after both '
                           'own-identity and own-address tests on header.src failed', site=e['span'],
                           construct='sender-update', facts={'id_ne': id_ne, 'addr_ne': addr_ne, 'applied': show(m, hd)})
-                break
-        if n >= 40:
-            break
+                # (no break: *every* apply_update reached on the path is a way into the member list)
     rep.floor('C09-R3', n, 1, 'apply_update in handle_data')
+    cs = sorted({c[0].nname for c in f.callers_of(lambda x: x == 'Foca::apply_update')})
+    rep.check(cs == ['Foca::apply_many', 'Foca::handle_data'], 'C09-R3', 'Foca::apply_update', 'apply_update is called only by '
+              'handle_data (the sender update) and apply_many (routed updates)', construct='apply-update-callers',
+              facts={'callers': cs})
     # apply_many branches are decided by C01-R4 (reused here so that C09 stands alone)
     c01.r4_routing(ctx, f, _Rename(rep, 'C01-R4', 'C09-R3'))
     ht = f.fn('Foca::handle_timer')
